@@ -271,6 +271,23 @@ prop("C19", "TestC19", "fault_enumeration",
                       "entry:toMultiAlign", "entry:toMultiAlign-wrap", "entry:closest", "entry:closestN", "entry:closestN-table", "entry:updown-list",
                       "entry:topranking", "entry:topranking-table", "proc:toPairAlign-stdout", "proc:toPairAlign-symlink"])
 
+q, t = tiers(8, 100, 16, 1500, floor_q=300, floor_t=3000, q_timeout=600, t_timeout=3000)
+prop("C18", "TestC18", "exploration",
+     "Process level, binary built from the tree. For each of snps, closest (plain and -n), updown list, updown topranking (fasta or csv query/target), "
+     "variants, sam toMultiAlign, sam toPairAlign, sam variants a valid input is generated (and first run to confirm exit 0), then exactly one "
+     "documented corruption is applied: unequal row, non-IUPAC symbol (at the first, middle or last record), 0-byte file, missing file, second record in "
+     "--reference, width mismatch between the command's two alignments, annotation/reference one base longer than the alignment's reference row, "
+     "0-byte SAM, header-less SAM (toMultiAlign), --start/--end outside 1..L or start > end (toMultiAlign/toPairAlign), unknown annotation suffix, "
+     "0-byte CSV, CSV that is not `updown list` output, topranking without any size/dist option — to any of the command's input files. The run must "
+     "terminate (5 s, re-confirmed with 25 s before a hang counts) with a non-zero exit status.",
+     "Exit 1 (error) and exit 2 (Go panic) both satisfy the statement as written; the class is recorded as a label. Only conditions gofasta documents or checks are injected; files a command never opens are not corrupted.",
+     "property-based testing (rapid) with structured corruption of valid inputs, process-level exit-status oracle",
+     "valid inputs from the C03/C06/C08/C04/C01 generators; non-trivial = corruption at a non-first record or in a secondary input file or in the options; distinct = hash of the case",
+     q, t, need_bin=True,
+     required_labels=["cmd:snps", "cmd:closest", "cmd:updown list", "cmd:updown topranking", "cmd:variants", "cmd:sam toMultiAlign", "cmd:sam toPairAlign", "cmd:sam variants",
+                      "corruption:unequal-row", "corruption:non-iupac", "corruption:empty-file", "corruption:missing-file", "corruption:empty-sam",
+                      "corruption:width-mismatch", "corruption:reference-two-records", "corruption:empty-csv", "corruption:csv-not-updown-list"])
+
 NOT_CLAIMED = {}
 
 
